@@ -14,6 +14,18 @@ Crash lab
   that count every call (os.getpid and non-callables such as os.path pass through uncounted) and
   os._exit(137) immediately before / after the k-th call, or after a short write.
 
+Gated helpers (races)
+  A helper can also run an operation *gated*: the same proxies are installed in the helper process, but
+  instead of crashing, every proxied call is a scheduling point - the helper reports {"at": call} and
+  parks until the harness answers {"go": true}; it then performs that one call and runs on to the next
+  scheduling point (or to the end of the operation).  The harness thereby interleaves the system calls
+  of two or three real processes deterministically and reads the pid path between any two of them.
+
+Restricted deployment (crash lab)
+  scn["deploy"] == "restricted": the target lives in a root-owned 0755 directory, the pre-existing
+  target file belongs to the unprivileged uid the forked child drops to before it runs the operation
+  (the old name of a rename lives in a writable sub-directory "ow").
+
 Nothing here judges anything; the oracle lives in checks/c17.py.
 """
 import ctypes
@@ -33,6 +45,7 @@ import gunicorn.pidfile as gp            # noqa: E402
 
 _real_os = os
 CRASH_EXIT = 137
+RESTRICTED_UID = 65534                  # nobody: the unprivileged service user of the "restricted deployment" cells
 MORGUE_AGE = 2.0
 
 
@@ -140,19 +153,78 @@ class Helper:
         self.cmd_fd = self.rep_fd = -1
 
 
+class _Lines:
+    """Command lines of the helper's pipe (shared by the command loop and the gate)."""
+
+    def __init__(self, fd):
+        self.fd = fd
+        self.buf = b""
+
+    def next(self):
+        while b"\n" not in self.buf:
+            d = os.read(self.fd, 65536)
+            if not d:
+                return None
+            self.buf += d
+        line, self.buf = self.buf.split(b"\n", 1)
+        return json.loads(line)
+
+
+class GateAbort(BaseException):
+    """The harness gave up on a gated operation (not an Exception: Pidfile.unlink swallows those)."""
+
+
+def _brief(a):
+    out = []
+    for x in a[:3]:
+        if isinstance(x, (str, bytes)):
+            x = os.path.basename(x) if isinstance(x, str) and "/" in x else x
+        out.append(repr(x)[:40])
+    return ",".join(out)
+
+
+class Gate:
+    """Same interface as Injector.wrap; every proxied call is a scheduling point when armed."""
+
+    def __init__(self, lines, wfd):
+        self.lines = lines
+        self.wfd = wfd
+        self.armed = False
+        self.n = 0
+
+    def wrap(self, name, fn, short=None):
+        gate = self
+
+        def w(*a, **kw):
+            if not gate.armed:
+                return fn(*a, **kw)
+            gate.n += 1
+            _real_os.write(gate.wfd, (json.dumps({"at": name, "n": gate.n, "args": _brief(a)}) + "\n").encode())
+            msg = gate.lines.next()
+            if msg is None:
+                _real_os._exit(0)
+            if not msg.get("go"):
+                raise GateAbort()
+            return fn(*a, **kw)
+        return w
+
+
 def _helper_loop(rfd, wfd):
     P = None
-    buf = b""
+    lines = _Lines(rfd)
+    gate = None
     while True:
-        while b"\n" not in buf:
-            d = os.read(rfd, 65536)
-            if not d:
-                return
-            buf += d
-        line, buf = buf.split(b"\n", 1)
-        cmd = json.loads(line)
+        cmd = lines.next()
+        if cmd is None:
+            return
         op = cmd["op"]
         out = {"ok": True, "ret": None}
+        if cmd.get("gated"):
+            if gate is None:
+                gate = Gate(lines, wfd)
+                install(gate)
+            gate.n = 0
+            gate.armed = True
         try:
             if op == "new":
                 P = gp.Pidfile(cmd["fname"])
@@ -172,6 +244,9 @@ def _helper_loop(rfd, wfd):
                 out = {"ok": False, "exc": "BadCommand", "msg": op}
         except BaseException as e:      # noqa: BLE001 - the reply must always be sent
             out = {"ok": False, "exc": type(e).__name__, "msg": str(e)[:200]}
+        if gate is not None:
+            gate.armed = False
+            out["calls"] = gate.n
         if P is not None:
             out["fname"] = P.fname
             out["pid_attr"] = P.pid if isinstance(P.pid, int) else repr(P.pid)
@@ -391,8 +466,9 @@ def crash_child(scn, k, mode, workdir, report_fd):
         me = os.getpid()
         os.chdir(workdir)
         base = "" if scn.get("relative") else workdir
+        restricted = scn.get("deploy") == "restricted"
         tgt = os.path.join(base, "T")
-        old = os.path.join(base, "O")
+        old = os.path.join(base, "ow", "O") if restricted else os.path.join(base, "O")
         inj = Injector(k, mode)
         install(inj)
 
@@ -402,25 +478,42 @@ def crash_child(scn, k, mode, workdir, report_fd):
                 with open(path, "wb") as f:
                     f.write(data)
                 os.chmod(path, 0o644)
+                if restricted:
+                    os.chown(path, RESTRICTED_UID, RESTRICTED_UID)
 
         op = scn["op"]
-        if op == "create":
+        if restricted:
+            # the directory of the target stays root's (0755); the target itself, if any, is handed to the service user
+            os.chmod(workdir, 0o755)
+            os.mkdir(os.path.join(workdir, "ow"))
+            os.chmod(os.path.join(workdir, "ow"), 0o777)
             prestate(tgt, scn["pre"])
+            os.setgroups([])
+            os.setgid(RESTRICTED_UID)
+            os.setuid(RESTRICTED_UID)
+        if op == "create":
+            if not restricted:
+                prestate(tgt, scn["pre"])
             P = gp.Pidfile(tgt)
             inj.armed = True
             try:
                 P.create(me)
             except RuntimeError:
                 code = 4
+            except PermissionError:
+                code = 5
         elif op == "rename":
             P = gp.Pidfile(old)
             P.create(me)                  # un-armed: the old name holds our pid, written by Pidfile
-            prestate(tgt, scn["pre"])
+            if not restricted:
+                prestate(tgt, scn["pre"])
             inj.armed = True
             try:
                 P.rename(tgt)
             except RuntimeError:
                 code = 4
+            except PermissionError:
+                code = 5
         elif op == "unlink":
             P = gp.Pidfile(tgt)
             P.create(me)
